@@ -5,11 +5,18 @@
 (* The harness runs the real jsonclient / LogClient under virtual time     *)
 (* over a scripted RoundTripper and records (in the order of the           *)
 (* recorder's mutex; t = virtual ms since the start of the run):           *)
+(*   Process {}                  a new process history: nothing has been   *)
+(*                               sent, nobody keeps a result               *)
 (*   Reset  {hc}                 a new client (a new trace) built on an    *)
-(*                               http.Client configured hc                 *)
-(*   Call   {c, t, ctxat}        caller c starts a submission; its context *)
-(*                               ends at ctxat (-1: never)                 *)
-(*   Post   {c, t, w, sp, rak, rav} the RoundTripper received a request    *)
+(*                               http.Client configured hc, in the same    *)
+(*                               process: what earlier clients returned is *)
+(*                               still kept by their callers               *)
+(*   Call   {c, no, t, ctxat}    caller c starts its no-th submission of   *)
+(*                               the process; its context ends at ctxat    *)
+(*                               (-1: never)                               *)
+(*   Post   {c, t, id, w, sp, rak, rav} the RoundTripper received a request *)
+(*                               (exchange id of the process: its body is   *)
+(*                               unlike every other's, also in length)      *)
 (*                               and answers with wire kind w (a 200 body  *)
 (*                               spelled sp); Retry-After form rak: secs   *)
 (*                               (rav seconds) | date (rav = the absolute  *)
@@ -18,7 +25,20 @@
 (*                               Seen(hc, w, sp), not the harness' say     *)
 (*   State  {t, mult, nb}        back-off state read through the verif     *)
 (*                               hook when every goroutine was blocked     *)
-(*   Return {c, t, res}          the submission returned ok | status | ctx *)
+(*   Return {c, t, res, id}      the submission returned ok | status | ctx *)
+(*                               and what it returned (error with status   *)
+(*                               and body / raw body, parsed response,     *)
+(*                               SCT) IS what the server sent in exchange  *)
+(*                               id (0: the context's error; -1: nothing   *)
+(*                               the server ever sent)                     *)
+(*   Inspect {c, t, seen}        after a return (c) and at the end of a    *)
+(*                               client's life (c = 0) the harness looks   *)
+(*                               again at EVERY result returned so far in  *)
+(*                               the process, which it kept as the caller  *)
+(*                               was handed it (the error value, the       *)
+(*                               *http.Response, the body slice, the       *)
+(*                               parsed struct, the SCT): seen = what each *)
+(*                               of them IS now, [c, no, k, id]            *)
 (* Everything else (the status switch with backoff.set, reading the        *)
 (* not-before instant, the timer, the end of a context) is not observable: *)
 (* those are silent steps and TLC searches for a placement.  The jitter of *)
@@ -36,7 +56,7 @@ Trace == ndJsonDeserialize(IOEnv.TRACE_FILE)
 VARIABLE l        \* next line of Trace to consume
 
 tvars == <<hc, now, mult, notBefore, pc, ctxEnd, ctxDone, until, result, lastResp, n,
-           lastPost, minNext, askUntil, hist, l>>
+           lastPost, minNext, askUntil, hist, callNo, lastId, sent, retained, l>>
 
 Fresh ==
   /\ hc = "plain"
@@ -51,12 +71,26 @@ Fresh ==
   /\ lastPost = [c \in Callers |-> -1]
   /\ minNext = [c \in Callers |-> 0]
   /\ hist = << >>
+  /\ callNo = [c \in Callers |-> 0]
+  /\ lastId = [c \in Callers |-> 0]
+  /\ sent = {} /\ retained = {}
 
 TraceInit == Fresh /\ l = 1 /\ TLCSet(1, 1)
 
 Ev(name) == l <= Len(Trace) /\ Trace[l].ev = name
 Consume == l' = l + 1
 
+\* a new process history
+TraceProcess ==
+  /\ Ev("Process")
+  /\ \A c \in Callers : pc[c] = "idle"
+  /\ callNo' = [c \in Callers |-> 0]
+  /\ lastId' = [c \in Callers |-> 0]
+  /\ sent' = {} /\ retained' = {}
+  /\ Consume
+  /\ UNCHANGED <<hc, now, mult, notBefore, pc, ctxEnd, ctxDone, until, result, lastResp, n, lastPost, minNext, askUntil, hist>>
+
+\* a new client of the process: the process history goes on
 TraceReset ==
   /\ Ev("Reset")
   /\ \A c \in Callers : pc[c] = "idle"
@@ -64,6 +98,7 @@ TraceReset ==
   /\ now' = 0 /\ mult' = 0 /\ notBefore' = 0 /\ askUntil' = 0
   /\ Consume
   /\ UNCHANGED <<pc, ctxEnd, ctxDone, until, result, lastResp, n, lastPost, minNext, hist>>
+  /\ UNCHANGED hvars
 
 TraceCall ==
   /\ Ev("Call")
@@ -73,8 +108,11 @@ TraceCall ==
      /\ pc' = [pc EXCEPT ![e.c] = "posting"]
      /\ ctxEnd' = [ctxEnd EXCEPT ![e.c] = e.ctxat]
      /\ ctxDone' = [ctxDone EXCEPT ![e.c] = FALSE]
+     /\ callNo' = [callNo EXCEPT ![e.c] = @ + 1]
+     /\ e.no = callNo'[e.c]
   /\ Consume
   /\ UNCHANGED <<hc, now, mult, notBefore, until, result, lastResp, n, lastPost, minNext, askUntil, hist>>
+  /\ UNCHANGED <<lastId, sent, retained>>
 
 \* the delay a response asks for, measured at the instant of the response
 Ov(e) == IF e.rak = "secs" THEN e.rav * Base ELSE IF e.rak = "date" THEN e.rav - now ELSE 0
@@ -83,7 +121,7 @@ TracePost ==
   /\ Ev("Post")
   /\ LET e == Trace[l] IN
      /\ e.t = now
-     /\ \E k \in Seen(hc, e.w, e.sp) : Post(e.c, Wire(e.w, e.sp, e.rak, Ov(e)), k)
+     /\ \E k \in Seen(hc, e.w, e.sp) : Post(e.c, Wire(e.w, e.sp, e.rak, Ov(e)), k, e.id)
   /\ Consume
 
 \* silent: the timer of c's wait fires (at until + j for some jitter j, or at once when that is past)
@@ -104,15 +142,27 @@ TraceState ==
   /\ Consume
   /\ UNCHANGED vars
 
+\* the results kept so far, looked at again: each is what was returned
+TraceInspect ==
+  /\ Ev("Inspect")
+  /\ LET e == Trace[l] IN
+     /\ e.t = now
+     /\ Inspect({[c |-> e.seen[i].c, no |-> e.seen[i].no, k |-> e.seen[i].k, id |-> e.seen[i].id] : i \in DOMAIN e.seen})
+  /\ Consume
+  /\ UNCHANGED vars
+
 TraceReturn ==
   /\ Ev("Return")
   /\ LET e == Trace[l] IN
      /\ e.t = now
      /\ pc[e.c] = "done" /\ result[e.c].k = e.res
+     \* what the caller was handed is the result the specification handed out
+     /\ [c |-> e.c, no |-> callNo[e.c], k |-> e.res, id |-> e.id] \in retained
      /\ pc' = [pc EXCEPT ![e.c] = "idle"]
      /\ result' = [result EXCEPT ![e.c] = NoRes]
   /\ Consume
   /\ UNCHANGED <<hc, now, mult, notBefore, ctxEnd, ctxDone, until, lastResp, n, lastPost, minNext, askUntil, hist>>
+  /\ UNCHANGED hvars
 
 \* somebody has to move at this instant: time does not pass
 TUrgent == \E c \in Callers :
@@ -121,7 +171,7 @@ TUrgent == \E c \in Callers :
              \/ CtxPending(c) /\ now >= ctxEnd[c]
 \* time moves to the instant of the next event, never past a timer's latest instant or a context end
 TraceAdvance ==
-  /\ l <= Len(Trace) /\ Trace[l].ev # "Reset"
+  /\ l <= Len(Trace) /\ Trace[l].ev \notin {"Reset", "Process"}
   /\ LET t == Trace[l].t IN
      /\ t > now
      /\ ~TUrgent
@@ -129,8 +179,9 @@ TraceAdvance ==
      /\ \A c \in Callers : CtxPending(c) => t <= ctxEnd[c]
      /\ now' = t
   /\ UNCHANGED <<hc, mult, notBefore, pc, ctxEnd, ctxDone, until, result, lastResp, n, lastPost, minNext, askUntil, hist, l>>
+  /\ UNCHANGED hvars
 
-TraceNext == \/ TraceReset \/ TraceCall \/ TracePost \/ TraceState \/ TraceReturn \/ TraceAdvance
+TraceNext == \/ TraceProcess \/ TraceReset \/ TraceCall \/ TracePost \/ TraceState \/ TraceInspect \/ TraceReturn \/ TraceAdvance
              \/ \E c \in Callers : TraceFire(c) \/ TraceSilent(c)
 
 TraceView == <<hc, now, mult, notBefore, pc, ctxEnd, ctxDone, until, result, lastResp, lastPost, minNext, askUntil, l>>
@@ -147,9 +198,9 @@ TraceAccepted ==
 \* resolved when its timer fires, so WaitIsBackoffPlusJitter is FireOK here)
 TraceTypeOK == TypeOK
 TraceClauses ==
-  [][(Ev("Reset") /\ l' = l + 1) \/
+  [][(Ev("Reset") /\ l' = l + 1) \/ (Ev("Process") /\ l' = l + 1) \/
      ( /\ FirstGood200Step /\ RetryOnlyOnStep /\ OthersImmediateStep /\ HonoursRetryAfterStep
        /\ CapPlusJitterStep /\ NoDelayOn408Step /\ UntilInWindowStep /\ PendingOnlyExtendedStep
        /\ MultMonotoneStep /\ NoPostAfterCtxStep /\ PromptCtxSafeStep /\ RedirectNotOKStep
-       /\ SpellingStep /\ HandedBackStep )]_tvars
+       /\ SpellingStep /\ HandedBackStep /\ ResultsAreValuesStep )]_tvars
 =============================================================================
